@@ -15,7 +15,7 @@ import numpy
 from translate import c16_rw
 from vlib import core
 
-TARGETS = ["Props/C16.vo", "Proofs/C16_Examples.vo"]
+TARGETS = ["Props/C16.vo", "Proofs/C16_Examples.vo", "Proofs/C16_HeapExamples.vo", "Proofs/C16_HeapC08.vo"]
 MAX_PER_KEY = 3          # concrete inputs reported per violation key (all are counted)
 ELEMENTS = ["C", "Ni", "O", "Na", "Cl", "Fe", "H", "Si", "Ti", "Ba"]
 TITLES = ["", "", "alpha", "Ni fcc", "old title", "phase 2 (annealed)", "x"]
@@ -358,8 +358,9 @@ def real_read_case(ctx, case, report=True):
     before = full_snapshot(target)
     keep = {"atoms": items_of(target), "dict": dict(target.__dict__)}     # keep every prior object alive (stable ids)
     err = None
+    rparser = None
     try:
-        do_read(target, case, path)
+        rparser = do_read(target, case, path)
     except Exception as e:                                                   # any exception type counts as "read failed"
         err = e
     cls = {"Structure": Structure, "PDFFitStructure": PDFFitStructure}[case["prior"]["cls"]]
@@ -420,7 +421,7 @@ def real_read_case(ctx, case, report=True):
         bad = [i for i, a in enumerate(items_of(target)) if a.lattice is not target.lattice]
         if bad:
             viol("atom-lattice-not-target", "%s: atom %d refers to a lattice that is not the target's lattice" % (tag, bad[0]), {"atoms": bad})
-    return {"target": target, "err": err, "prior_ids": prior_ids, "prior_lat": prior_lat, "path": path, "found": found, "keep": keep,
+    return {"target": target, "err": err, "parser": rparser, "prior_ids": prior_ids, "prior_lat": prior_lat, "path": path, "found": found, "keep": keep,
             "before": before}
 
 
@@ -569,6 +570,23 @@ Definition mkenv (gp : res parser) (title : Z) (pd : list (string * Z)) (cell : 
   {| e_getparser := fun _ => gp; e_title_of := fun _ => title; e_open_w := fun _ => Ok tt; e_default_pdffit := pd; e_default_cell := cell;
      e_new_lattice := 900 |}.
 Definition G0 : args := {| g_filename := 1; g_source := 1; g_format := 1 |}.
+(* heap interpreter (Model/C16_Heap.v): identity pattern and payloads of the target after the read *)
+From DS Require Model.C08_StructHeap Model.C16_Heap.
+Module H := C08_StructHeap.
+Module HM := C16_Heap.
+Definition enc_h (n0 : nat) (r : option HM.hstate) : list (list Z) :=
+  match r with
+  | None => [[1]]
+  | Some s =>
+      [0; Z.of_nat (List.length (HM.self_items s));
+       (match HM.self_lat s, HM.new_lat s with Some a, Some b => if Nat.eqb a b then 1 else 0 | _, _ => 0 end);
+       (match HM.self_cell s with Some c => c | None => 0 end)]
+      :: map (fun a => let p := H.tag_of (HM.hs_world s) a in
+                       [H.p_elem p; H.p_label p; H.p_xyz p; H.p_occ p;
+                        if Nat.leb n0 a then 1 else 0;
+                        match H.lat_of (HM.hs_world s) a, HM.self_lat s with Some x, Some y => if Nat.eqb x y then 1 else 0 | _, _ => 0 end])
+             (HM.self_items s)
+  end.
 """
 
 
@@ -594,12 +612,14 @@ def model_read_case(ctx, case, real, names):
     ids = {id(a): i + 1 for i, a in enumerate(items_of(prior))}
     prior_lat_id = ab.lat_id(prior.__dict__.get("_lattice")) if prior.__dict__.get("_lattice") is not None else -5
     oterm = obj_term(ab, prior, ids)
+    oracle = {"ok": False, "result": None, "sg": None}
     # the oracle: what getParser / parse do for this source (a separate parser object)
     try:
         p = getParser(case["format"])
         try:
             with quiet():
                 r = p.parse(case["text"]) if case["entry"] == "str" else p.parseFile(real["path"])
+            oracle.update(ok=True, result=r)
             if r is None:
                 res = "Ok None"
             else:
@@ -611,6 +631,7 @@ def model_read_case(ctx, case, real, names):
             res = "Raise %s" % z(exc_code(ab, e))
         sg = getattr(p, "spacegroup", None)
         sgt = "Some %s" % z(ab.val(snap(sg.short_name))) if sg else "None"
+        oracle["sg"] = sgt
         gp = "Ok (const_parser {| po_result := %s; po_sg := %s |} (Raise 0))" % (res, sgt)
     except Exception as e:
         gp = "Raise %s" % z(exc_code(ab, e))
@@ -628,6 +649,75 @@ def model_read_case(ctx, case, real, names):
     if real["prior_lat"] is not None:
         ab.lat_ids[id(real["prior_lat"])] = prior_lat_id
     exp = encode_real(ab, 1 if err is not None else 0, exc_code(ab, err) if err is not None else 0, t, real["prior_ids"], prior_lat_id)
+    heap = None
+    if err is None and oracle["ok"]:
+        heap = heap_read_case(ab, case, real, prior, oracle, "mkenv (%s) %s [%s] %s" % (
+            "Raise 0", z(ab.text(base)), "; ".join('("%s", %s)' % (k, z(ab.val(snap(v)))) for k, v in dpd.items()), z(ab.val(snap(Lattice())))), en)
+    return term, exp, heap
+
+
+def pay_term(ab, a):
+    """(element, label, xyz, occupancy) of an atom as a C08 payload with interned components."""
+    comps = [ab.val(("el", snap(a.element))), ab.val(("label", snap(a.label))), ab.val(("xyz", snap(a.xyz))), ab.val(("occ", snap(a.occupancy)))]
+    return "H.mkPay %s %s %s %s" % tuple(z(c) for c in comps), comps
+
+
+def heap_read_case(ab, case, real, prior, oracle, env, en):
+    """The prior target and the parser result as a C08 world; expected identity pattern from the real objects."""
+    from diffpy.structure import Lattice
+    r = oracle["result"]
+    lats = {}                                    # lattice objects -> lid, the target's first, then the result's
+
+    def lid(lat):
+        if lat is None:
+            return None
+        if id(lat) not in lats:
+            lats[id(lat)] = (len(lats), lat)
+        return lats[id(lat)][0]
+
+    plat = prior.__dict__.get("_lattice")
+    latnone = plat is None
+    self_l = lid(plat) if not latnone else lid(Lattice())          # a placeholder lattice when the entry is None
+    cells, n = [], 0
+    self_items = []
+    for a in items_of(prior):
+        l = lid(a.lattice)
+        cells.append("H.mkCell (%s) %s" % (pay_term(ab, a)[0], "None" if l is None else "(Some %d%%nat)" % l))
+        self_items.append(n)
+        n += 1
+    objs = ["H.OStruct [%s] %d%%nat" % ("; ".join("%d%%nat" % i for i in self_items), self_l)]
+    new = "None"
+    nmeta = "[]"
+    if r is not None:
+        rl = lid(r.__dict__.get("_lattice"))
+        if rl is None:
+            return None
+        ritems = []
+        for a in items_of(r):
+            l = lid(a.lattice)
+            cells.append("H.mkCell (%s) %s" % (pay_term(ab, a)[0], "None" if l is None else "(Some %d%%nat)" % l))
+            ritems.append(n)
+            n += 1
+        objs.append("H.OStruct [%s] %d%%nat" % ("; ".join("%d%%nat" % i for i in ritems), rl))
+        new = "(Some 1%nat)"
+        nmeta = ab.inst({k: v for k, v in r.__dict__.items() if k != "_lattice"})[0]
+    meta = "{| o_cls := %s; o_items := []; o_inst := %s |}" % (cls_term(prior), ab.inst({k: v for k, v in prior.__dict__.items() if k != "_lattice"})[0])
+    lcells = "; ".join("(%d%%nat, %s)" % (i, z(ab.val(snap(lat)))) for i, lat in sorted(lats.values(), key=lambda q: q[0]))
+    world = "H.mkW [%s] %d%%nat [%s] false false" % ("; ".join(cells), len(lats), "; ".join(objs))
+    term = "enc_h %d%%nat (HM.hrun_read (%s) G0 %s %s (HM.mkHS (%s) 0%%nat %s %s %s %s [%s] %s))" % (
+        n, env, cls_term(prior), en, world, new, nmeta, meta, "true" if latnone else "false", lcells, "(%s)" % (oracle["sg"] or "None"))
+    # expected, from the real objects after the read
+    t = real["target"]
+    own = t.__dict__.get("_lattice")
+    rp = real.get("parser")
+    rstru = getattr(rp, "stru", None)
+    if rstru is not None and hasattr(rstru, "lattice"):
+        same = 1 if own is rstru.lattice else 0            # the target's lattice IS the parser result's lattice object
+    else:
+        same = 1 if own is not real["prior_lat"] else 0     # the parser does not keep its result: at least not the old object
+    exp = [[0, len(items_of(t)), same, ab.val(snap(own)) if own is not None else 0]]
+    for a in items_of(t):
+        exp.append(pay_term(ab, a)[1] + [1 if id(a) not in real["prior_ids"] else 0, 1 if a.lattice is own else 0])
     return term, exp
 
 
@@ -779,6 +869,7 @@ def model_built():
 def run_reads(ctx, cases, check_model=True):
     names = list(NAMES)
     items = []
+    hitems = []
     stats = {"failed": 0, "succeeded": 0}
     for case in cases:
         real = real_read_case(ctx, case)
@@ -786,13 +877,15 @@ def run_reads(ctx, cases, check_model=True):
         ctx.count(("read", case["prior"]["cls"], case["format"], case["entry"], case["note"], real["err"] is None, len(items_of(real["target"]))))
         if check_model:
             try:
-                term, exp = model_read_case(ctx, case, real, names)
+                term, exp, heap = model_read_case(ctx, case, real, names)
                 if real["err"] is not None:
                     case["_exc"] = type(real["err"]).__name__
                 items.append((term, exp, case))
+                if heap is not None:
+                    hitems.append((heap[0], heap[1], case))
             except ValueError as e:
                 ctx.notes.append("case not abstracted: %s" % e)
-    return items, names, stats
+    return items, hitems, names, stats
 
 
 def run(ctx):
@@ -819,7 +912,7 @@ def run(ctx):
     n_write = 300 if quick else 4000
     cases = [copy.deepcopy(c) for c in FIXED_READ_CASES] + [rand_read_case(rng, i, texts) for i in range(n_read)]
     ctx.log("reads: %d cases" % len(cases))
-    items, names, stats = run_reads(ctx, cases)
+    items, hitems, names, stats = run_reads(ctx, cases)
     ctx.log("reads done: %s" % stats)
     wcases = [rand_write_case(rng, i) for i in range(n_write)]
     witems = []
@@ -847,6 +940,15 @@ def run(ctx):
                         len(bad), len(items), c["note"], c["format"], c["entry"], g, e)
                     ctx.notes.append({"correspondence-mismatch": short(c), "model": g, "implementation": e})
                 ctx.obligation("correspondence:read-model-vs-implementation", not bad, detail)
+            hbad, hevaluated = coq_compare(ctx, "heap", hitems, names)
+            if hevaluated:
+                detail = ""
+                if hbad:
+                    c, g, e = hbad[0]
+                    detail = "%d of %d cases; first: %s format=%r entry=%s: heap model %s, implementation %s" % (
+                        len(hbad), len(hitems), c["note"], c["format"], c["entry"], g, e)
+                    ctx.notes.append({"heap-correspondence-mismatch": short(c), "model": g, "implementation": e})
+                ctx.obligation("correspondence:heap-model-vs-read", not hbad and len(hitems) > 0, detail or ("no successful read case" if not hitems else ""))
             wbad, wevaluated = coq_compare(ctx, "write", witems, [])
             if wevaluated:
                 detail = ""
@@ -865,7 +967,7 @@ def run(ctx):
                 "source (text written by the library in each of the 7 formats, valid or damaged at a random record: truncate / corrupt / delete / token / empty / garbage) x "
                 "format argument (true, auto, another, unknown) x entry point (string, file, missing file); write cases: random structure x spoiler x format x pre-existing file; "
                 "distinct = distinct (kind, class, format, entry, source kind, outcome, size) tuples",
-        "reads": stats, "writes": wstats, "model_cases_compared": len(items) + len(witems),
+        "reads": stats, "writes": wstats, "model_cases_compared": len(items) + len(witems), "heap_model_cases_compared": len(hitems),
     })
 
 
